@@ -241,7 +241,47 @@ def check_class(params):
 
 
 from mc.core import safe  # noqa: E402
-CASES = {k: safe("C06", f) for k, f in {"class": check_class, "member": check_member, "foliation": check_foliation}.items()}
+def spiral_recipe(n):
+    """The asymptotic worst case for normal_form (arXiv:1804.07832): unit, n caps, counit, n cups."""
+    x = "x"
+    layers = [(("box", "unit", (), (x,)), 0)]
+    for i in range(n):
+        layers.append((("box", "cap@%d" % i, (), (x, x)), i))
+    layers.append((("box", "counit", (x,), ()), n))
+    for i in range(n):
+        layers.append((("box", "cup@%d" % i, (x, x), ()), n - i - 1))
+    return ("monoidal", (), tuple(layers))
+
+
+def check_large(params):
+    """Large connected diagrams (spirals): member-level obligations for the diagram and for the
+    normal forms reached from it; one normal form per flag among the members tried."""
+    recipe = _norm_recipe(params["recipe"])
+    m0 = build.to_model(recipe)
+    out = []
+    if not ref.box_graph_connected(m0):
+        raise AssertionError("directed family must be connected")
+    members = [m0]
+    for left in (False, True):
+        nfs = {}
+        for m in list(members):
+            p = dict(cls=recipe[0], m=m, left=left)
+            res = check_member(p)
+            out.extend(res)
+            if res:
+                return out
+            nfs.setdefault(p["_nf"], m)
+            if p["_nf"] not in members:
+                members.append(p["_nf"])
+            params["_steps"] = params.get("_steps", 0) + p.get("_steps", 0)
+        if len(nfs) != 1:
+            out.append((_sig("large-not-canonical", params), "members of the class of %s have %d normal forms "
+                        "(left=%s)" % (build.build(recipe), len(nfs), left)))
+    return out
+
+
+CASES = {k: safe("C06", f) for k, f in {"class": check_class, "member": check_member, "foliation": check_foliation,
+                                        "large": check_large}.items()}
 
 
 def _stage1(shard):
@@ -333,6 +373,28 @@ def run(ctx):
         reps = [reps[k] for k in sorted(reps)]
         for p in pmap(_stage2, build.shards(reps, 64)):
             ctx.merge(p)
+    # equal boxes repeated side by side (non-linear names): a sweep that only exchanges equal boxes
+    rep_sig = [("box", "g", (), ("x", "x", "x")), ("box", "f", ("x",), ("x",)), ("box", "h", ("x", "x", "x"), ()),
+               ("box", "k", ("x", "x"), ("x",)), ("box", "u", (), ("x",))]
+    rep = [r for r in build.universe("monoidal", rep_sig, [()], 5 if ctx.quick else 6, 3) if len(r[2]) >= 3]
+    ctx.note("universe_sizes", "repeated-boxes:depth<=%d=%d" % (5 if ctx.quick else 6, len(rep)))
+    reps = {}
+    for chunk in pmap(_stage1, build.shards(rep, 64)):
+        for recipe, cid, size, capped in chunk:
+            ctx.count("seeds")
+            reps.setdefault(cid, recipe)
+    for p in pmap(_stage2, build.shards([reps[k] for k in sorted(reps)], 64)):
+        ctx.merge(p)
+    # large connected diagrams
+    big = [("large", dict(recipe=spiral_recipe(n))) for n in range(1, 6 if ctx.quick else 8)]
+    for case, params in big:
+        res = CASES[case](params)
+        ctx.count("states")
+        ctx.count("transitions", params.pop("_steps", 0))
+        ctx.count("large_diagrams")
+        for sig, msg in res:
+            ctx.violation(sig, msg, case, params)
+    ctx.counters["traces_validated_against_impl"] = ctx.counters.get("transitions", 0)
     if ctx.counters.get("capped_classes"):
         ctx.note("capped", "%d classes hit the member cap (disconnected ones)"
                  % ctx.counters["capped_classes"])
